@@ -25,6 +25,7 @@ extern "C" int h_load() {
     if (dump) dump_all(d, "gen1", true);
     if (gens >= 1) {
       d.write("gen2.c3d");
+      if (__vp_cfg("obsfiles")) { __vp_tag("files1"); __vp_obs_file("gen2.c3d"); }
       ezc3d::c3d e("gen2.c3d");
       if (dump) dump_all(e, "gen2", true);
       if (gens >= 2) {
